@@ -50,3 +50,51 @@ def splitstream_dump(text):
     except Exception as e:  # noqa
         return 'ERR ' + exn_name(e)
     return 'OK ' + '||'.join('|'.join(tok_str(t.ttype, t.value) for t in st.tokens) for st in stmts)
+
+
+def node_str(n, out):
+    if n.is_group:
+        out.append('G' + type(n).__name__ + ':' + ','.join(str(ord(c)) for c in n.value) + '(')
+        for i, k in enumerate(n.tokens):
+            if i:
+                out.append(';')
+            node_str(k, out)
+        out.append(')')
+    else:
+        out.append('L' + ttype_str(n.ttype) + ':' + ','.join(str(ord(c)) for c in n.value))
+
+
+def nodes_str(stmts):
+    out = []
+    for i, s in enumerate(stmts):
+        if i:
+            out.append('||')
+        node_str(s, out)
+    return ''.join(out)
+
+
+def pass_list():
+    """The functions grouping.group applies, in order, read from its source."""
+    import ast
+    import inspect
+    src = inspect.getsource(grouping.group)
+    fn = ast.parse(src).body[0]
+    for n in ast.walk(fn):
+        if isinstance(n, ast.For) and isinstance(n.iter, ast.List):
+            return [getattr(grouping, e.id) for e in n.iter.elts]
+    raise RuntimeError('grouping.group: pass list not found')
+
+
+def parse_dump(text, k=None):
+    """Tree after the first k passes of grouping.group (all when k is None)."""
+    try:
+        stmts = list(StatementSplitter().process(lexer.tokenize(text)))
+        fns = pass_list()
+        if k is not None:
+            fns = fns[:k]
+        for st in stmts:
+            for f in fns:
+                f(st)
+    except Exception as e:  # noqa
+        return 'ERR ' + exn_name(e)
+    return 'OK ' + nodes_str(stmts)
